@@ -134,6 +134,8 @@ theorem C12_covered_intermediate : Covered intermediate_reads intermediate_write
 theorem C12_covered_pysnmp : Covered pysnmp_reads pysnmp_writes pysnmp_resets := by decide +kernel
 theorem C12_covered_jsondoc : Covered jsondoc_reads jsondoc_writes jsondoc_resets := by decide +kernel
 theorem C12_covered_parser : Covered parser_reads parser_writes parser_resets := by decide +kernel
+/-- `MibCompiler.compile` keeps all per-call state in locals: it writes no instance field at all -/
+theorem C12_covered_compiler : Covered compiler_reads compiler_writes compiler_resets ∧ compiler_writes = [] := by decide +kernel
 
 /-! unsorted set iterations left in the source; why each is harmless:
 * symtable `list(self._rows)`: `_symtable_rows` is only used for membership tests by the second pass
@@ -146,5 +148,6 @@ theorem pin_setIterations_intermediate : intermediate_setIterations = [] := rfl
 theorem pin_setIterations_pysnmp : pysnmp_setIterations = [] := rfl
 theorem pin_setIterations_jsondoc : jsondoc_setIterations = [] := rfl
 theorem pin_setIterations_parser : parser_setIterations = [] := rfl
+theorem pin_setIterations_compiler : compiler_setIterations = [] := rfl
 
 end Pysmi.Generated.Fields
